@@ -2,6 +2,8 @@ package engines
 
 import (
 	"fmt"
+	cpcabi "github.com/EscanBE/evermint/v12/x/cpc/abi"
+	cpctypes "github.com/EscanBE/evermint/v12/x/cpc/types"
 	"math/big"
 	"os"
 	"strings"
@@ -31,6 +33,7 @@ func ethCryptoKeccak(b []byte) []byte { return crypto.Keccak256(b) }
 
 // blockFixture: contracts planted at fixture time and the wallets used as senders.
 type blockFixture struct {
+	erc20Two                   common.Address
 	c                          *chain
 	logger                     common.Address // emits calldata[0] LOG0s
 	reverter                   common.Address
@@ -96,6 +99,16 @@ func newBlockFixture(t *testing.T, maxGas int64) *blockFixture {
 		}
 		f.sdBal = append(f.sdBal, b0)
 		f.sdOther = append(f.sdOther, b1)
+	}
+	// a log-emitting custom precompile WITHOUT code in the EVM state: the ERC-20 face of a second denomination; the
+	// senders hold some of it (the EVM denomination, which the model tracks, is not touched by these transfers)
+	{
+		tok, err := c.s.ChainApp.CpcKeeper().DeployErc20CustomPrecompiledContract(ctx, "two", cpctypes.Erc20CustomPrecompiledContractMeta{Symbol: "TWO", Decimals: 6, MinDenom: "utwo"})
+		require.NoError(t, err)
+		f.erc20Two = tok
+		for _, w := range c.wallets {
+			fund(w.GetEthAddress(), "utwo", 1_000_000)
+		}
 	}
 	// a poor wallet: enough for nothing but a couple of cheap txs
 	f.poor = c.s.CreateAccount()
@@ -449,10 +462,15 @@ func (f *blockFixture) genTx(rng *hx.Rng, baseFee *big.Int, ws []*itutiltypes.Te
 		a.value = big.NewInt(int64(rng.Intn(50)))
 		a.gas = 21000 + uint64(rng.Intn(50000))
 		g.kind = "transfer-fresh"
-	case kind < 32:
+	case kind < 29:
 		a.to = &f.logger
 		a.data = []byte{byte(rng.Intn(6))}
 		g.kind = "logger"
+	case kind < 32: // a transaction addressed DIRECTLY to the precompile: one Transfer log from an address without code
+		a.to = &f.erc20Two
+		a.data = append(append([]byte{}, cpcabi.Erc20CpcInfo.ABI.Methods["transfer"].ID...), mustPack(cpcabi.Erc20CpcInfo.ABI.Methods["transfer"].Inputs.Pack(ws[rng.Intn(len(ws))].GetEthAddress(), big.NewInt(int64(1+rng.Intn(9)))))...)
+		a.gas = 200_000
+		g.kind = "erc20-direct"
 	case kind < 42:
 		a.to = &f.storer
 		a.data = []byte{byte(rng.Intn(2))}
